@@ -22,6 +22,14 @@ type messageSetReader struct {
 	// This is used to detect truncation of the response.
 	lengthRemain int
 
+	// Offset following the last v2 record batch that was consumed entirely
+	// (all of its records were read, or compaction left it without records);
+	// zero if there was none.
+	//
+	// The last offset of a batch is retained when the records at its end are
+	// compacted away, so this is where consumption has to resume.
+	batchEnd int64
+
 	decompressed *bytes.Buffer
 }
 
@@ -126,8 +134,15 @@ func (r *messageSetReader) readMessage(min int64, key readBytesFunc, val readByt
 		err = RequestTimedOut
 		return
 	}
-	if err = r.readHeader(); err != nil {
-		return
+	for {
+		if err = r.readHeader(); err != nil {
+			return
+		}
+		// Compaction may leave any number of empty record batches behind
+		// (header retained, no records): skip all of them.
+		if r.header.magic != 2 || r.count != 0 {
+			break
+		}
 	}
 	switch r.header.magic {
 	case 0, 1:
@@ -482,6 +497,10 @@ func (r *messageSetReader) readHeader() (err error) {
 		r.count = int(r.header.v2.count)
 		// Subtracts the header bytes from the length
 		r.lengthRemain = int(r.header.length) - 49
+		if r.count == 0 {
+			// empty batch: nothing to read, consumption resumes after it
+			r.batchEnd = r.header.firstOffset + int64(r.header.v2.lastOffsetDelta) + 1
+		}
 		if r.debug {
 			r.log("Read v2 header with count=%d offset=%d len=%d magic=%d attributes=%d", r.count, r.header.firstOffset, r.header.length, r.header.magic, r.header.v2.attributes)
 		}
